@@ -142,6 +142,7 @@ def pre_formulas(tier: str):
     for t in ("(and (q c ?x))", "(and (not (q c ?y)) (p ?x))", "(and (or (q c ?x) (q ?x c)))",
               "(and (<= (h ?x ?y) 0.5))", "(and (p ?x) (>= (h ?y ?x) 1))", "(and (or (r) (< (h ?x ?y) (g ?y))))",
               "(and (>= (h ?x c) 1))", "(and (< (h c ?y) (h ?y c)) (p c))",
+              "(and (>= (h c c) 1))", "(and (p ?x) (< (f) (+ (h c c) (g c))))",   # one constant in both places of a function term
               "(and (p ?x) (p ?y))", "(and (not (p ?x)) (not (p ?y)) (r))", "(and (or (p ?x) (p ?y)) (p ?x))",
               "(and (m c))", "(and (not (m c)) (p ?x))", "(and (or (m c) (q ?x c)))",   # constant of a proper subtype of the position's type
               "(and (or (r) (>= (g ?x) 1)))", "(and (p ?x) (or (not (r)) (< (f) (g ?y))))",   # comparisons inside a disjunction
@@ -302,6 +303,7 @@ MUTUAL = [
 EXTRA_EFF = [  # constant before a variable; constants inside function terms; same-sign twins
     "(and (q c ?x))", "(and (not (q c ?y)) (q ?y c))", "(and (when (q c ?x) (not (q c ?x))))",
     "(and (increase (h c ?y) 1))", "(and (assign (h ?x c) (h c ?x)))", "(and (p ?x) (p ?y))",
+    "(and (increase (h c c) 1) (decrease (f) 1))", "(and (assign (f) (h c c)) (when (p ?x) (increase (g ?x) (h c c))))",
     "(and (not (p ?x)) (not (p ?y)))", "(and (when (p ?y) (p ?x)) (when (p ?x) (p ?y)))",
     "(and (when (p ?x) (not (q ?x ?y))) (when (q ?x ?y) (not (p ?x))))",
     "(and (forall (?y - t1) (when (q ?x ?y) (not (q ?x ?y)))))",          # quantified variable shadows a parameter
@@ -359,6 +361,10 @@ LAYOUTS = [  # (constants, extra predicates, extra functions, parameters, precon
     (None, "", "", "?w - t3 ?x ?y - t1", "(and (not (= ?x ?y)) (m ?w))", "(and (q ?y ?x) (not (m ?w)))"),
     (None, "", "", "?x - t1 ?w - object ?y - t2", "(and (q ?x ?y) (not (m ?w)))", "(and (m ?w) (not (q ?x ?y)) (assign (g ?y) (g ?x)))"),
     (None, "", "", "?y - t2 ?x - t1", "(and (p ?y))", "(and (q ?y ?x) (decrease (g ?x) (g ?y)))"),
+    # parameters named like the declarations' own parameters (?a ?b), used in the declared and in the other order
+    (None, "", "", "?a - t1 ?b - t1", "(and (q ?b ?a) (>= (h ?b ?a) 1))",
+     "(and (not (q ?b ?a)) (q ?a ?b) (increase (h ?b ?a) 1) (assign (f) (h ?a ?b)))"),
+    (None, "", "", "?b - t1 ?a - t1", "(and (or (q ?a ?b) (< (h ?a ?b) (h ?b ?a))))", "(and (q ?b ?a) (decrease (h ?a ?b) (h ?b ?a)))"),
     # predicate / function declarations whose types interleave
     (None, "(s3 ?a - t1 ?b - t3 ?c - t1)", "(w3 ?a - t1 ?b - t3 ?c - t1)", "?x - t1 ?w - t3 ?y - t1",
      "(and (or (s3 ?x ?w ?y) (>= (w3 ?x ?w ?y) 1)))", "(and (s3 ?y ?w ?x) (increase (w3 ?y ?w ?x) 2))"),
